@@ -253,8 +253,16 @@ func genSet(t *rapid.T, cfg genCfg) Set {
 		for i := 0; i < nT && room(c, 1); i++ {
 			sp := blank(uni.Tombstone, c, alloc(c))
 			sp.Target = f.Root
-			if rapid.Bool().Draw(t, "tomb-has-exp") { // tombstones are live when statuses are read
-				sp.Exp = rapid.IntRange(s.Eq, uni.MaxEpoch).Draw(t, "tomb-exp")
+			// A tombstone may already be over (exp < epoch) while GC has collected
+			// neither it nor its target: it is still a stored tombstone, the metabase
+			// indexes and applies it (its own expiration is never consulted for the
+			// target's status) and GC reclaims the target.
+			switch rapid.IntRange(0, 3).Draw(t, "tomb-exp-kind") {
+			case 0:
+			case 1:
+				sp.Exp = rapid.IntRange(s.Eq, uni.MaxEpoch).Draw(t, "tomb-exp") // live when statuses are read
+			default:
+				sp.Exp = rapid.IntRange(0, uni.MaxEpoch).Draw(t, "tomb-exp-any")
 			}
 			add(fam, rTomb, sp)
 		}
